@@ -84,6 +84,7 @@ pub const TEMPLATES: &[&str] = &[
     "err-syntax",
     "err-attribute",
     "err-unresolved",
+    "err-many-unresolved",
     "err-cycle",
     "err-cycle-cross-file",
     "err-alias-cycle",
@@ -149,7 +150,7 @@ pub fn instantiate(template: &'static str, rng: &mut Rng) -> Program {
             p.files.push(f(
                 "rich.slice",
                 format!(
-                    "[[allow(BrokenDocLink)]]\nmodule Rich{u}\n\n/// Overview line one.\n/// Overview line two with {{@link Gone}} suppressed.\n[cs::readonly]\nstruct Doc {{\n    /// A field.\n    a: int32\n    tag(7) b: Sequence<Dictionary<string, Sequence<int8>>>?\n}}\n\nenum Big : varint62 {{ Lo = -100, Hi = 2305843009213693951 }}\n\nenum WithFields {{ A(x: int32), B(tag(1) y: string?), C }}\n\ninterface Svc {{\n    a(x: Result<string, Big>) -> Result<Sequence<Doc>, WithFields>\n    idempotent b(tag(1) o: Doc?, tag(2) p: bool?) -> (r1: int32, r2: stream Doc)\n}}\n\n{}",
+                    "[[allow(BrokenDocLink, Deprecated, MalformedDocComment)]]\nmodule Rich{u}\n\n/// Overview line one.\n/// Overview line two with {{@link Gone}} suppressed.\n[cs::readonly]\nstruct Doc {{\n    /// A field.\n    a: int32\n    tag(7) b: Sequence<Dictionary<string, Sequence<int8>>>?\n}}\n\nenum Big : varint62 {{ Lo = -100, Hi = 2305843009213693951 }}\n\nenum WithFields {{ A(x: int32), B(tag(1) y: string?), C }}\n\ninterface Svc {{\n    a(x: Result<string, Big>) -> Result<Sequence<Doc>, WithFields>\n    idempotent b(tag(1) o: Doc?, tag(2) p: bool?) -> (r1: int32, r2: stream Doc)\n}}\n\n{}",
                     filler(rng, "Rich", fill)
                 ),
             ));
@@ -279,6 +280,19 @@ pub fn instantiate(template: &'static str, rng: &mut Rng) -> Program {
             p.class = Class::Error;
             p.codes = vec!["E033"];
         }
+        "err-many-unresolved" => {
+            // a number of errors around the sizes where a status derived from the count would wrap
+            let n = *rng.pick(&[2usize, 3, 255, 256, 257, 512]);
+            let mut text = format!("module Many{u}\n\nstruct Big {{\n");
+            for i in 0..n {
+                text.push_str(&format!("    f{i}: Missing{i}\n"));
+            }
+            text.push_str("}\n");
+            p.files.push(f("good.slice", format!("module Good{u}\nstruct G {{ a: int32 }}\n")));
+            p.files.push(f("many.slice", text));
+            p.class = Class::Error;
+            p.codes = vec!["E033"];
+        }
         "err-cycle" => {
             p.files.push(f("good.slice", format!("module Good{u}\nstruct G {{ a: int32 }}\n")));
             p.files.push(f("bad.slice", format!("module Bad{u}\nstruct A {{ b: B }}\nstruct B {{ a: A }}\nstruct C {{ c: Sequence<C?>, d: C }}\nstruct D {{ e: E }}\nstruct E {{ d: D }}\n")));
@@ -347,7 +361,7 @@ struct Ent {
     deprecated: bool,
 }
 
-/// `inject`: 0 none, 1 containment cycle, 2 redefinition, 3 unresolved type.
+/// `inject`: 0 none, 1 containment cycle, 2 redefinition, 3 unresolved type, 4 illegal dictionary key next to a legal twin.
 pub fn random_program(rng: &mut Rng, inject: u8) -> Program {
     let u = format!("{}", (b'A' + rng.below(26) as u8) as char);
     let modules: Vec<String> = vec![format!("Rp{u}"), format!("Rp{u}::Sub"), format!("Rq{u}"), format!("Rp{u}::Sub::Deep")];
@@ -356,6 +370,8 @@ pub fn random_program(rng: &mut Rng, inject: u8) -> Program {
     let n_ents = 4 + rng.usize_below(9);
     let mut ents: Vec<Ent> = Vec::new();
     let mut bodies: Vec<String> = Vec::new();
+    // (module, identifier) pairs that some doc comment links by relative name
+    let mut relative_links: Vec<(usize, String)> = Vec::new();
     let prim = ["int32", "string", "bool", "float64", "varuint62", "uint8"];
     for i in 0..n_ents {
         let file = rng.usize_below(n_files);
@@ -367,7 +383,14 @@ pub fn random_program(rng: &mut Rng, inject: u8) -> Program {
             8 | 9 | 10 => Kind::Interface,
             _ => Kind::Custom,
         };
-        let name = format!("{}{}", match kind { Kind::Struct => "S", Kind::Enum => "E", Kind::Alias => "A", Kind::Interface => "I", Kind::Custom => "C" }, i);
+        let mut name = format!("{}{}", match kind { Kind::Struct => "S", Kind::Enum => "E", Kind::Alias => "A", Kind::Interface => "I", Kind::Custom => "C" }, i);
+        // the same simple identifier in several modules (legal: the scoped names differ)
+        if rng.chance(1, 4) {
+            let shared = *rng.pick(&["Key", "Item", "Node", "Error"]);
+            if !ents.iter().any(|e: &Ent| e.name == shared && e.module == module) {
+                name = shared.to_owned();
+            }
+        }
         let deprecated = kind != Kind::Alias && rng.chance(1, 6);
         // a type expression that refers to an EARLIER entity (never an interface) or a primitive
         let earlier: Vec<usize> = (0..ents.len()).filter(|j| ents[*j].kind != Kind::Interface).collect();
@@ -387,7 +410,12 @@ pub fn random_program(rng: &mut Rng, inject: u8) -> Program {
             }
         };
         let mut doc = String::new();
-        if rng.chance(1, 4) && !ents.is_empty() {
+        if let Some((_, ident)) = relative_links.iter().find(|(m, id)| *m == module && ents.iter().any(|e| e.module == module && &e.name == id)) {
+            if rng.chance(1, 2) {
+                doc = format!("/// The sibling {{@link {ident}}}.\n");
+            }
+        }
+        if doc.is_empty() && rng.chance(1, 4) && !ents.is_empty() {
             let j = rng.usize_below(ents.len());
             if rng.chance(1, 5) {
                 doc = format!("/// Relates to {{@link {}::Nowhere{i}}}.\n", modules[ents[j].module]);
@@ -399,7 +427,7 @@ pub fn random_program(rng: &mut Rng, inject: u8) -> Program {
             if rng.chance(1, 2) { "[deprecated(\"old\")]\n" } else { "[deprecated]\n" }
         } else if rng.chance(1, 8) {
             // silences uses of deprecated things inside this definition only
-            "[allow(Deprecated)]\n"
+            if rng.chance(1, 2) { "[allow(Deprecated)]\n" } else { "[allow(BrokenDocLink, Deprecated, IncorrectDocComment, MalformedDocComment)]\n" }
         } else if rng.chance(1, 8) {
             "[cs::attribute(\"x\")]\n"
         } else {
@@ -432,7 +460,17 @@ pub fn random_program(rng: &mut Rng, inject: u8) -> Program {
                     format!("{doc}{attr}{unchecked}enum {name} {{\n    {name}A(a: {t1}, tag(1) b: string?)\n    {name}B\n    {name}C(c: {t2})\n}}\n")
                 } else {
                     let under = *rng.pick(&["int32", "uint8", "int16", "varint32"]);
-                    format!("{doc}{attr}enum {name} : {under} {{ {name}X = {}, {name}Y, {name}Z = {} }}\n", rng.below(5), 10 + rng.below(90))
+                    // sometimes an enumerator carries the identifier of a sibling entity, and the doc comment links
+                    // that identifier by its relative name (it must bind to the enumerator: the search starts at
+                    // the documented element itself)
+                    let sibling = ents.iter().filter(|e| e.module == module && e.name != name).map(|e| e.name.clone()).next();
+                    match sibling {
+                        Some(sib) if rng.chance(1, 2) => {
+                            relative_links.push((module, sib.clone()));
+                            format!("/// Own member {{@link {sib}}}.\n{attr}enum {name} : {under} {{ {name}X = {}, {sib}, {name}Z = {} }}\n", rng.below(5), 10 + rng.below(90))
+                        }
+                        _ => format!("{doc}{attr}enum {name} : {under} {{ {name}X = {}, {name}Y, {name}Z = {} }}\n", rng.below(5), 10 + rng.below(90)),
+                    }
                 }
             }
             Kind::Alias => {
@@ -491,6 +529,16 @@ pub fn random_program(rng: &mut Rng, inject: u8) -> Program {
                 extra.push((ents[k].file, format!("custom {}\n", ents[k].name)));
             }
         }
+        4 => {
+            // `Dictionary<KeyT, int32>` in two modules: KeyT is an enum (a legal key) in one and a struct with a
+            // string field (not a legal key) in the other; rejected whatever the order
+            let fa = rng.usize_below(n_files);
+            let fb = (0..n_files).find(|f| file_module[*f] != file_module[fa]).unwrap_or(fa);
+            if file_module[fa] != file_module[fb] {
+                extra.push((fa, "enum KeyT : uint8 { K1, K2 }\nstruct UsesGoodKey { d: Dictionary<KeyT, int32> }\n".to_owned()));
+                extra.push((fb, "struct KeyT { s: string }\nstruct UsesBadKey { d: Dictionary<KeyT, int32> }\n".to_owned()));
+            }
+        }
         3 => {
             let f = rng.usize_below(n_files);
             extra.push((f, format!("struct Dangling {{ x: {}::DoesNotExist, y: AlsoMissing }}\n", modules[rng.usize_below(modules.len())])));
@@ -502,8 +550,12 @@ pub fn random_program(rng: &mut Rng, inject: u8) -> Program {
     let mut files = Vec::new();
     for f in 0..n_files {
         let mut text = String::new();
-        if rng.chance(1, 5) {
-            text.push_str("[[allow(Deprecated)]]\n");
+        match rng.below(10) {
+            0 => text.push_str("[[allow(Deprecated)]]\n"),
+            // several lints in one attribute: their order is part of what is sent to the generators
+            1 => text.push_str("[[allow(Deprecated, BrokenDocLink, IncorrectDocComment)]]\n"),
+            2 => text.push_str("[[allow(MalformedDocComment, Deprecated)]]\n"),
+            _ => {}
         }
         if rng.chance(1, 4) {
             text.push_str(&format!("#define SYM{}\n", rng.below(3)));
